@@ -97,6 +97,9 @@ class EngineCheck(PropertyCheck):
             m = max(1, int(n * frac))
             for _ in range(m):
                 o = dict(opts)
+                if o.pop("latent", False):
+                    cases.append(E.gen_latent_cycle(rng))
+                    continue
                 nk = 4 + rng.below(9 if not ctx.thorough else 14)
                 rules = E.gen_program(rng, nk, cyclic=o.pop("cyclic", False), malformed=o.pop("malformed", False),
                                       mustfollow=o.pop("mustfollow", bias))
